@@ -3,7 +3,7 @@ node state, then evaluates every report accessor of the finished Backtest / Resu
 
   REP <report> ok | err <class>
   RV  <report>:<column> <hex floats, one per row>        (numeric reports, all rows incl. the synthetic one)
-  RT  <k> <date> <security> <quantity> <price>            (transaction list, in order)
+  RT  <k> <row> <security> <quantity> <price>             (transaction list, in order; row of the data index)
 
 Reports: Backtest.weights / security_weights / positions / herfindahl_index / turnover, Result.prices,
 Result.get_transactions / get_weights / get_security_weights, Result.stats, Result.display (stdout swallowed),
@@ -58,16 +58,41 @@ def reports(b, out):
         rep("result_get_security_weights", lambda: res.get_security_weights())
 
         def emit_tr(t):
+            rows = {d: i for i, d in enumerate(b.strategy.data.index)}
             for k, ((d, s), row) in enumerate(t.iterrows()):
-                out.append("RT %d %d %s %s %s" % (k, int(pd.Timestamp(d).value // 10 ** 9), s, pf(row["quantity"]), pf(row["price"])))
+                out.append("RT %d %d %s %s %s" % (k, rows[d], s, pf(row["quantity"]), pf(row["price"])))
         rep("result_get_transactions", lambda: res.get_transactions(), emit_tr)
+
+
+PEEK = [False]
+
+
+def install_peek():
+    """a monitoring read, as a user's algo would do it: after every top-level stack call of a root strategy the
+    harness reads root.positions / root.outlays (public accessors; reading must be transparent, C08)"""
+    import bt.core as core
+    orig = core.AlgoStack.__call__
+
+    def wrapped(self, target):
+        res = orig(self, target)
+        if PEEK[0] and getattr(target, "stack", None) is self and target.parent is target:
+            try:
+                target.positions
+                target.outlays
+            except Exception:  # noqa: BLE001
+                pass
+        return res
+    wrapped._verif_wrapped = True
+    core.AlgoStack.__call__ = wrapped
 
 
 def main():
     install_trace()
+    install_peek()
     cases = json.load(sys.stdin)
     out = []
     for c in cases:
+        PEEK[0] = bool(c.get("peek"))
         impl_backtest.run_case(c, out, extra=reports)
     sys.stdout.write("\n".join(out) + "\n")
 
